@@ -311,7 +311,8 @@ func (s *Scope) findDeclared(name []byte, skipForDeclared bool) *Var {
 
 // findUndeclared finds an undeclared variable in the current and contained scopes.
 func (s *Scope) findUndeclared(name []byte) *Var {
-	for _, v := range s.Undeclared {
+	// skip the uses in the for statement initializer or function arguments, a declaration may still follow in the body as in `for(;a;){a;let a}` or `function f(a=b){b;var b}`, they are merged in HoistUndeclared otherwise
+	for _, v := range s.Undeclared[s.NumArgUses:] {
 		// no need to evaluate v.Link as v.Data stays the same and Link is nil in the active scope
 		if 0 < v.Uses && bytes.Equal(name, v.Data) {
 			return v
@@ -323,7 +324,7 @@ func (s *Scope) findUndeclared(name []byte) *Var {
 // add undeclared variable to scope, this is called for the block scope when declaring a var in it
 func (s *Scope) AddUndeclared(v *Var) {
 	// don't add undeclared symbol if it's already there
-	for _, vorig := range s.Undeclared {
+	for _, vorig := range s.Undeclared[s.NumArgUses:] {
 		if v == vorig {
 			return
 		}
@@ -345,6 +346,23 @@ func (s *Scope) MarkFuncArgs() {
 
 // HoistUndeclared copies all undeclared variables of the current scope to the parent scope.
 func (s *Scope) HoistUndeclared() {
+	// uses in the body were kept apart from the for statement initializer or function arguments, merge those that have not been declared in the body
+	for i := int(s.NumArgUses); i < len(s.Undeclared); i++ {
+		vorig := s.Undeclared[i]
+		for _, v := range s.Undeclared[:s.NumArgUses] {
+			// no need to evaluate v.Link as v.Data stays the same and Link is nil in the active scope
+			if v == vorig || 0 < vorig.Uses && vorig.Decl == NoDecl && 0 < v.Uses && bytes.Equal(vorig.Data, v.Data) {
+				if v != vorig {
+					v.Uses += vorig.Uses
+					vorig.Link = v
+				}
+				s.Undeclared = append(s.Undeclared[:i], s.Undeclared[i+1:]...)
+				i--
+				break
+			}
+		}
+	}
+
 	for i, vorig := range s.Undeclared {
 		// no need to evaluate vorig.Link as vorig.Data stays the same
 		if 0 < vorig.Uses && vorig.Decl == NoDecl {
